@@ -470,5 +470,6 @@ func checkC11(w *World, r *Run) {
 	sort.Strings(names)
 	r.Note("ObjectMetadata fields: %s", strings.Join(names, ", "))
 	checkC11EmptyMetadata(w, r)
+	checkC11AppendCarriesOver(w, r)
 	r.NotCovered("header value edge cases (combining repeated x-amz-meta-* headers, size limits), the tagging header/XML parsers, directive parsing in the copy handler; storage class on CopyObject is decided under C14 (routing-class-comes-from-the-right-source); transitions under C14 (transition-changes-only-the-storage-class)")
 }
